@@ -376,3 +376,282 @@ Example C04_nonvacuous_parallax_general :=
     2 ltac:(lia) eq_refl eq_refl ws2r_link ws2r_link
     ex_g wone ex_env ex_garbage ex_stack mfull mA 1 1 ex_garbage 3 3
     ltac:(lia) ltac:(cbv; lia) ltac:(lia) ltac:(lia).
+
+
+(* ==========================================================================================
+   Round-3 extension: the kernel factors (gamma_factor, ramps) over an abstract character and aperture,
+   Hermitian multipliers / lossless real part, fftfreq index convention, object state. *)
+From QV.model Require Import C04_Gamma_Model.
+From QV.proof Require Import C04_Proofs_Ext.
+
+(* gamma_factor (complex_probe.py), for any character E (exp(-i .)) and any real aperture A: gamma(k, q) = A(k) [ A(q-k) E(chi(q-k) - chi(k)) - A(q+k) E(chi(k) - chi(q+k)) ] -- the closed form in terms of the aberration surface at k, k+q, k-q and the aperture (recomputed in float64 against every gamma_factor call of real runs by harness/ext_C04.py) *)
+Theorem C04_gamma_closed_form :
+  forall (R : Type) (rO rI : R) (radd rmul rsub : R -> R -> R) (ropp : R -> R)
+         (Rth : ring_theory rO rI radd rmul rsub ropp (@eq R)) (conj : R -> R) (Cok : conj_ok radd rmul conj)
+         (K : Type) (kadd : K -> K -> K) (kneg : K -> K) (Ph : Type) (padd : Ph -> Ph -> Ph) (pneg : Ph -> Ph)
+         (E : Ph -> R) (A : K -> R) (chi : K -> Ph) (k q : K),
+    (forall a b, E (padd a b) = rmul (E a) (E b)) -> (forall a, conj (E a) = E (pneg a)) ->
+    (forall v, conj (A v) = A v) ->
+    gamma rmul rsub conj kadd kneg E A chi k q = gamma_closed rmul rsub kadd kneg padd pneg E A chi k q.
+Proof. exact C04_gamma_closed_form_main. Qed.
+Print Assumptions C04_gamma_closed_form.
+
+(* zero aberrations (E(chi v) = 1): gamma(k, q) = A(k) (A(q-k) - A(q+k)), a real number (it vanishes where both shifted discs cover k: no phase contrast in the double-overlap region) *)
+Theorem C04_gamma_zero_aberration :
+  forall (R : Type) (rO rI : R) (radd rmul rsub : R -> R -> R) (ropp : R -> R)
+         (Rth : ring_theory rO rI radd rmul rsub ropp (@eq R)) (conj : R -> R) (Cok : conj_ok radd rmul conj)
+         (K : Type) (kadd : K -> K -> K) (kneg : K -> K) (Ph : Type)
+         (E : Ph -> R) (A : K -> R) (chi : K -> Ph) (k q : K),
+    (forall v, conj (A v) = A v) -> (forall v, E (chi v) = rI) ->
+    gamma rmul rsub conj kadd kneg E A chi k q = rmul (A k) (rsub (A (ksub kadd kneg q k)) (A (kadd q k)))
+    /\ conj (gamma rmul rsub conj kadd kneg E A chi k q) = gamma rmul rsub conj kadd kneg E A chi k q.
+Proof. exact C04_gamma_zero_aberration_main. Qed.
+Print Assumptions C04_gamma_zero_aberration.
+
+(* Hermitian symmetry in q for an even probe (even aperture, even surface: C10, C12, C30, ... but not coma): gamma(k, -q) = - conj(gamma(k, q)) *)
+Theorem C04_gamma_hermitian :
+  forall (R : Type) (rO rI : R) (radd rmul rsub : R -> R -> R) (ropp : R -> R)
+         (Rth : ring_theory rO rI radd rmul rsub ropp (@eq R)) (conj : R -> R) (Cok : conj_ok radd rmul conj)
+         (K : Type) (kadd : K -> K -> K) (kneg : K -> K) (Ph : Type)
+         (E : Ph -> R) (A : K -> R) (chi : K -> Ph) (k q : K),
+    (forall a b, kneg (kadd a b) = kadd (kneg a) (kneg b)) -> (forall a, kneg (kneg a) = a) ->
+    (forall v, A (kneg v) = A v) -> (forall v, chi (kneg v) = chi v) ->
+    gamma rmul rsub conj kadd kneg E A chi k (kneg q) = ropp (conj (gamma rmul rsub conj kadd kneg E A chi k q)).
+Proof. exact C04_gamma_hermitian_main. Qed.
+Print Assumptions C04_gamma_hermitian.
+
+(* ... hence |gamma|^2 (the power accumulated by obf / mf) is symmetric in q *)
+Theorem C04_gamma_power_symmetric :
+  forall (R : Type) (rO rI : R) (radd rmul rsub : R -> R -> R) (ropp : R -> R)
+         (Rth : ring_theory rO rI radd rmul rsub ropp (@eq R)) (conj : R -> R) (Cok : conj_ok radd rmul conj)
+         (K : Type) (kadd : K -> K -> K) (kneg : K -> K) (Ph : Type)
+         (E : Ph -> R) (A : K -> R) (chi : K -> Ph) (k q : K),
+    (forall a b, kneg (kadd a b) = kadd (kneg a) (kneg b)) -> (forall a, kneg (kneg a) = a) ->
+    (forall v, A (kneg v) = A v) -> (forall v, chi (kneg v) = chi v) ->
+    gamma_power rmul rsub conj kadd kneg E A chi k (kneg q) = gamma_power rmul rsub conj kadd kneg E A chi k q.
+Proof. exact C04_gamma_power_symmetric_main. Qed.
+Print Assumptions C04_gamma_power_symmetric.
+
+(* gamma(k, 0) = 0 for an even probe: the DC term of the ssb / obf / mf numerators vanishes whatever _preprocess left there *)
+Theorem C04_gamma_dc_zero :
+  forall (R : Type) (rO rI : R) (radd rmul rsub : R -> R -> R) (ropp : R -> R)
+         (Rth : ring_theory rO rI radd rmul rsub ropp (@eq R)) (conj : R -> R) (Cok : conj_ok radd rmul conj)
+         (K : Type) (kadd : K -> K -> K) (kneg : K -> K) (Ph : Type)
+         (E : Ph -> R) (A : K -> R) (chi : K -> Ph) (k k0 : K),
+    (forall v, A (kneg v) = A v) -> (forall v, chi (kneg v) = chi v) -> (forall a, kadd k0 a = a) ->
+    gamma rmul rsub conj kadd kneg E A chi k k0 = rO.
+Proof. exact C04_gamma_dc_zero_main. Qed.
+Print Assumptions C04_gamma_dc_zero.
+
+(* the ssb / obf / mf Fourier multiplier -i conj(gamma(k, q)) / n(q) (n real, symmetric: clip(|gamma|), the norm) is Hermitian in q for an even probe *)
+Theorem C04_sideband_multiplier_hermitian :
+  forall (R : Type) (rO rI : R) (radd rmul rsub : R -> R -> R) (ropp : R -> R)
+         (Rth : ring_theory rO rI radd rmul rsub ropp (@eq R)) (conj : R -> R) (Cok : conj_ok radd rmul conj)
+         (K : Type) (kadd : K -> K -> K) (kneg : K -> K) (Ph : Type)
+         (E : Ph -> R) (A : K -> R) (chi : K -> Ph) (mi : R) (ninv : K -> R) (k q : K),
+    (forall a b, kneg (kadd a b) = kadd (kneg a) (kneg b)) -> (forall a, kneg (kneg a) = a) ->
+    (forall v, A (kneg v) = A v) -> (forall v, chi (kneg v) = chi v) ->
+    conj mi = ropp mi -> (forall v, conj (ninv v) = ninv v) -> (forall v, ninv (kneg v) = ninv v) ->
+    conj (sb_factor rmul rsub conj kadd kneg E A chi mi ninv k q) = sb_factor rmul rsub conj kadd kneg E A chi mi ninv k (kneg q).
+Proof. exact C04_sideband_multiplier_hermitian_main. Qed.
+Print Assumptions C04_sideband_multiplier_hermitian.
+
+(* the parallax multiplier exp(-i grad_k . q) sign(q) is Hermitian in q (any shift, sub-pixel included; sign real and symmetric) *)
+Theorem C04_parallax_multiplier_hermitian :
+  forall (R : Type) (radd rmul : R -> R -> R) (conj : R -> R) (Cok : conj_ok radd rmul conj)
+         (K : Type) (kneg : K -> K) (Ph : Type) (padd : Ph -> Ph -> Ph) (pneg : Ph -> Ph)
+         (E : Ph -> R) (pair : K -> K -> Ph) (sgn : K -> R) (grad q : K),
+    (forall a b, E (padd a b) = rmul (E a) (E b)) -> (forall a, conj (E a) = E (pneg a)) ->
+    (forall g v, pair g (kneg v) = pneg (pair g v)) ->
+    (forall v, conj (sgn v) = sgn v) -> (forall v, sgn (kneg v) = sgn v) ->
+    conj (prlx_factor rmul E pair sgn grad q) = prlx_factor rmul E pair sgn grad (kneg q).
+Proof. exact C04_parallax_multiplier_hermitian_main. Qed.
+Print Assumptions C04_parallax_multiplier_hermitian.
+
+(* a Hermitian Fourier multiplier maps real images to real images (every grid size): conj DFT / inverse-DFT reflection lemmas *)
+Theorem C04_hermitian_multiplier_real :
+  forall (R : Type) (rO rI : R) (radd rmul rsub : R -> R -> R) (ropp : R -> R)
+         (Rth : ring_theory rO rI radd rmul rsub ropp (@eq R)) (conj : R -> R) (Cok : conj_ok radd rmul conj)
+         (N1 : nat) (w1 : Z -> R) (Ninv1 : R) (N2 : nat) (w2 : Z -> R) (Ninv2 : R)
+         (Rok1 : root_ok rO rI radd rmul conj N1 w1 Ninv1) (Rok2 : root_ok rO rI radd rmul conj N2 w2 Ninv2)
+         (h x : img R) (n1 n2 : nat),
+    (forall k1 k2, k1 < N1 -> k2 < N2 -> conj (h k1 k2) = h (negidx N1 k1) (negidx N2 k2)) ->
+    (forall i j, i < N1 -> j < N2 -> conj (x i j) = x i j) ->
+    conj (fmul2 rO radd rmul N1 w1 Ninv1 N2 w2 Ninv2 h x n1 n2) = fmul2 rO radd rmul N1 w1 Ninv1 N2 w2 Ninv2 h x n1 n2.
+Proof. exact C04_hermitian_multiplier_real_main. Qed.
+Print Assumptions C04_hermitian_multiplier_real.
+
+(* reconstruct with a multiplier kernel (all five are) whose multiplier x envelope is Hermitian on the index grid, real virtual image: corrected_stack[j] IS the inverse transform over W -- `.real` in `fourier_factor.real / BF_weights` discards nothing (any sub-mask, batch size, upsampling) *)
+Theorem C04_hermitian_kernel_real_part_lossless :
+  forall (R : Type) (rO rI : R) (radd rmul rsub : R -> R -> R) (ropp : R -> R)
+         (Rth : ring_theory rO rI radd rmul rsub ropp (@eq R)) (conj : R -> R) (Cok : conj_ok radd rmul conj) (half : R) (rinv : R -> R)
+         (n1 : nat) (ws1 : Z -> R) (ninv1 : R) (n2 : nat) (ws2 : Z -> R) (ninv2 : R)
+         (Roks1 : root_ok rO rI radd rmul conj n1 ws1 ninv1) (Roks2 : root_ok rO rI radd rmul conj n2 ws2 ninv2)
+         (N1 : nat) (w1 : Z -> R) (Ninv1 : R) (N2 : nat) (w2 : Z -> R) (Ninv2 : R)
+         (Rok1 : root_ok rO rI radd rmul conj N1 w1 Ninv1) (Rok2 : root_ok rO rI radd rmul conj N2 w2 Ninv2)
+         (u : nat) (Hu : 1 <= u) (HN1 : N1 = n1 * u) (HN2 : N2 = n2 * u)
+         (Hws1 : forall a : Z, ws1 a = w1 (Z.of_nat u * a)%Z) (Hws2 : forall a : Z, ws2 a = w2 (Z.of_nat u * a)%Z)
+         (g : nat * nat -> img R) (wtd : nat * nat -> R) (env garbage : img R) (stack : nat -> img R)
+         (full sub : mask2) (b j : nat) (d : img R) (r1 r2 : nat),
+    rmul half (radd rI rI) = rI ->
+    (forall k1 k2, k1 < N1 -> k2 < N2 ->
+        conj (rmul (g (ctx_pix sub j) k1 k2) (env k1 k2))
+        = rmul (g (ctx_pix sub j) (negidx N1 k1) (negidx N2 k2)) (env (negidx N1 k1) (negidx N2 k2))) ->
+    (forall i k, conj ((stack (nth j (index_map full sub) 0)) i k) = (stack (nth j (index_map full sub) 0)) i k) ->
+    1 <= b -> j < ctx_n sub -> r1 < N1 -> r2 < N2 ->
+    nth j (recon_mask_single rO radd rmul conj half rinv n1 n2 ws1 ws2 N1 N2 w1 w2 Ninv1 Ninv2 (kern_mult rmul g) wtd stack env garbage full sub b) d r1 r2
+    = rmul (fmul2 rO radd rmul N1 w1 Ninv1 N2 w2 Ninv2
+              (fun k1 k2 => rmul (g (ctx_pix sub j) k1 k2) (env k1 k2))
+              (upsample2 rO u (fun x1 x2 => rsub ((stack (nth j (index_map full sub) 0)) x1 x2) (rmul (rmul ninv1 ninv2) (sum2 rO radd n1 n2 ((stack (nth j (index_map full sub) 0))))))) r1 r2)
+           (rinv (bf_weights rO radd (ctx_n sub) (ctx_wt wtd sub))).
+Proof. exact C04_hermitian_kernel_real_part_lossless_main. Qed.
+Print Assumptions C04_hermitian_kernel_real_part_lossless.
+
+(* from symmetry in the frequency vector to symmetry on the index grid, when the frequency of the reflected index is the negated frequency (odd axis lengths; on an even axis the Nyquist index is its own reflection and fftfreq gives -N/2 there: the hypothesis fails at that row/column only) *)
+Theorem C04_grid_multiplier_hermitian :
+  forall (R : Type) (conj : R -> R) (K : Type) (kneg : K -> K) (N1 N2 : nat) (qof : nat -> nat -> K) (F : K -> R),
+    (forall q, conj (F q) = F (kneg q)) ->
+    (forall k1 k2, k1 < N1 -> k2 < N2 -> qof (negidx N1 k1) (negidx N2 k2) = kneg (qof k1 k2)) ->
+    forall k1 k2, k1 < N1 -> k2 < N2 -> conj (F (qof k1 k2)) = F (qof (negidx N1 k1) (negidx N2 k2)).
+Proof. exact C04_grid_multiplier_hermitian_main. Qed.
+Print Assumptions C04_grid_multiplier_hermitian.
+
+(* torch.fft.fftfreq index convention: an integer-shift ramp evaluated at the SIGNED frequency index (k - N above Nyquist, what the code's qxa holds) equals the ramp at the unsigned index k used by C04_parallax_shift *)
+Theorem C04_ramp_fftfreq_index :
+  forall (R : Type) (rO rI : R) (radd rmul rsub : R -> R -> R) (ropp : R -> R)
+         (Rth : ring_theory rO rI radd rmul rsub ropp (@eq R)) (conj : R -> R) (Cok : conj_ok radd rmul conj)
+         (N : nat) (w : Z -> R) (Ninv : R) (Rok : root_ok rO rI radd rmul conj N w Ninv) (k : nat) (s : Z),
+    w (signed_idx N k * s)%Z = w (Z.of_nat k * s)%Z.
+Proof. exact C04_ramp_fftfreq_index_main. Qed.
+Print Assumptions C04_ramp_fftfreq_index.
+
+(* object state: reconstruct reads only what construction fixed and its arguments and writes only corrected_stack, so the k-th call on a used object equals the same call on a fresh object, and the inputs are unchanged (harness/ext_C04.py checks the read / write sets on the real object) *)
+Theorem C04_state_history_independent :
+  forall (In Args Res : Type) (f : In -> Args -> Res) (i : In) (before : list Args) (a : Args),
+    corrected (run_calls f (construct Res i) (before ++ [a])) = Some (f i a)
+    /\ corrected (reconstruct_call f (construct Res i) a) = Some (f i a)
+    /\ inputs (run_calls f (construct Res i) (before ++ [a])) = i.
+Proof. exact C04_state_history_independent_main. Qed.
+Print Assumptions C04_state_history_independent.
+
+(* an integer-shift ramp is Hermitian on the index grid for EVERY grid size (so C04_hermitian_kernel_real_part_lossless applies to integer parallax shifts also on even grids) *)
+Theorem C04_integer_ramp_hermitian :
+  forall (R : Type) (rO rI : R) (radd rmul rsub : R -> R -> R) (ropp : R -> R)
+         (Rth : ring_theory rO rI radd rmul rsub ropp (@eq R)) (conj : R -> R) (Cok : conj_ok radd rmul conj)
+         (N1 : nat) (w1 : Z -> R) (Ninv1 : R) (N2 : nat) (w2 : Z -> R) (Ninv2 : R)
+         (Rok1 : root_ok rO rI radd rmul conj N1 w1 Ninv1) (Rok2 : root_ok rO rI radd rmul conj N2 w2 Ninv2)
+         (s1 s2 : Z) (k1 k2 : nat),
+    k1 < N1 -> k2 < N2 ->
+    conj (rmul (w1 (Z.of_nat k1 * s1)%Z) (w2 (Z.of_nat k2 * s2)%Z))
+    = rmul (w1 (Z.of_nat (negidx N1 k1) * s1)%Z) (w2 (Z.of_nat (negidx N2 k2) * s2)%Z).
+Proof. exact C04_integer_ramp_hermitian_main. Qed.
+Print Assumptions C04_integer_ramp_hermitian.
+
+(* sub-masks that OVERLAP or do not cover the construction mask (outside the recombination claim of the property): the aperture-weighted sum of their reconstructions is the sum of W_full x (image of the full reconstruction) over the stack indices of all parts, an index counted once per part containing it; C04_submask_recombine is the case where the indices form a permutation *)
+Theorem C04_submask_any_family :
+  forall (R : Type) (rO rI : R) (radd rmul rsub : R -> R -> R) (ropp : R -> R)
+         (Rth : ring_theory rO rI radd rmul rsub ropp (@eq R)) (conj : R -> R) (half : R) (rinv : R -> R)
+         (n1 : nat) (ws1 : Z -> R) (n2 : nat) (ws2 : Z -> R)
+         (N1 : nat) (w1 : Z -> R) (Ninv1 : R) (N2 : nat) (w2 : Z -> R) (Ninv2 : R)
+         (kern : nat * nat -> img R -> img R) (wtd : nat * nat -> R) (env garbage : img R) (stack : nat -> img R)
+         (full : mask2) (parts : list mask2) (bsz : mask2 -> nat) (bF : nat) (d : img R) (r1 r2 : nat),
+    (forall part, In part parts ->
+        same_shape full part /\ submask full part /\ 1 <= bsz part /\ rmul (bf_weights rO radd (ctx_n part) (ctx_wt wtd part)) (rinv (bf_weights rO radd (ctx_n part) (ctx_wt wtd part))) = rI) ->
+    (forall part m, In part parts -> In m (index_map full part) -> m < ctx_n full) ->
+    1 <= bF -> rmul (bf_weights rO radd (ctx_n full) (ctx_wt wtd full)) (rinv (bf_weights rO radd (ctx_n full) (ctx_wt wtd full))) = rI ->
+    suml rO radd (map (fun part => rmul (bf_weights rO radd (ctx_n part) (ctx_wt wtd part)) (corrected_bf rO radd (recon_mask_single rO radd rmul conj half rinv n1 n2 ws1 ws2 N1 N2 w1 w2 Ninv1 Ninv2 kern wtd stack env garbage full part (bsz part)) r1 r2)) parts)
+    = suml rO radd (map (fun m => rmul (bf_weights rO radd (ctx_n full) (ctx_wt wtd full)) (nth m (recon_mask_single rO radd rmul conj half rinv n1 n2 ws1 ws2 N1 N2 w1 w2 Ninv1 Ninv2 kern wtd stack env garbage full full bF) d r1 r2))
+                   (concat (map (index_map full) parts))).
+Proof. exact C04_submask_any_family_main. Qed.
+Print Assumptions C04_submask_any_family.
+
+
+(* ------------------------------------------------------------------------------------------
+   Non-vacuity of the round-3 theorems: Gaussian rationals, K = Z x Z, phases Z, E = w4, an even real
+   aperture exA, an even surface exchi, the 4 x 4 grid (proof/C04_Proofs_ExtInst.v). *)
+From QV.proof Require Import C04_Proofs_ExtInst.
+
+Example C04_nonvacuous_gamma_closed :=
+  C04_gamma_closed_form C c0 c1 cadd cmul csub copp C_ring cconj C_conj_ok Kz kadd2 kneg2 Z Z.add Z.opp
+    w4 exA exchi (1, 0)%Z (1, 1)%Z w4_add w4_conj exA_real.
+(* ... and gamma is not trivially zero there *)
+Example C04_nonvacuous_gamma_value :
+  gamma cmul csub cconj kadd2 kneg2 w4 exA exchi (1, 0)%Z (1, 1)%Z <> c0.
+Proof. intro H. apply (f_equal fst) in H. apply (f_equal Qcanon.this) in H. vm_compute in H. discriminate H. Qed.
+
+Example C04_nonvacuous_gamma_zero :=
+  C04_gamma_zero_aberration C c0 c1 cadd cmul csub copp C_ring cconj C_conj_ok Kz kadd2 kneg2 Z
+    w4 exA exchi0 (1, 0)%Z (1, 1)%Z exA_real w4_chi0.
+
+Example C04_nonvacuous_gamma_hermitian :=
+  C04_gamma_hermitian C c0 c1 cadd cmul csub copp C_ring cconj C_conj_ok Kz kadd2 kneg2 Z
+    w4 exA exchi (1, 0)%Z (1, 1)%Z kneg2_add kneg2_invol exA_even exchi_even.
+
+Example C04_nonvacuous_gamma_power :=
+  C04_gamma_power_symmetric C c0 c1 cadd cmul csub copp C_ring cconj C_conj_ok Kz kadd2 kneg2 Z
+    w4 exA exchi (1, 0)%Z (1, 1)%Z kneg2_add kneg2_invol exA_even exchi_even.
+
+Example C04_nonvacuous_gamma_dc :=
+  C04_gamma_dc_zero C c0 c1 cadd cmul csub copp C_ring cconj C_conj_ok Kz kadd2 kneg2 Z
+    w4 exA exchi (1, 0)%Z kzero2 exA_even exchi_even kzero2_l.
+
+Example C04_nonvacuous_sideband_hermitian :=
+  C04_sideband_multiplier_hermitian C c0 c1 cadd cmul csub copp C_ring cconj C_conj_ok Kz kadd2 kneg2 Z
+    w4 exA exchi exmi exninv (1, 0)%Z (1, 1)%Z kneg2_add kneg2_invol exA_even exchi_even exmi_conj
+    (fun _ => eq_refl) (fun _ => eq_refl).
+
+Example C04_nonvacuous_parallax_hermitian :=
+  C04_parallax_multiplier_hermitian C cadd cmul cconj C_conj_ok Kz kneg2 Z Z.add Z.opp
+    w4 expair exsgn (2, -1)%Z (1, 1)%Z w4_add w4_conj expair_neg (fun _ => eq_refl) (fun _ => eq_refl).
+
+Example C04_nonvacuous_ramp_hermitian :=
+  C04_integer_ramp_hermitian C c0 c1 cadd cmul csub copp C_ring cconj C_conj_ok 4 w4 quarter 4 w4 quarter
+    C_root_ok C_root_ok 1%Z (-2)%Z 2 3 ltac:(lia) ltac:(lia).
+
+Example C04_nonvacuous_hermitian_real :=
+  C04_hermitian_multiplier_real C c0 c1 cadd cmul csub copp C_ring cconj C_conj_ok 4 w4 quarter 4 w4 quarter
+    C_root_ok C_root_ok (fun k1 k2 => cmul (w4 (Z.of_nat k1 * 1)%Z) (w4 (Z.of_nat k2 * (-2))%Z)) (ex_stack 1) 1 2
+    (fun k1 k2 H1 H2 => C04_integer_ramp_hermitian C c0 c1 cadd cmul csub copp C_ring cconj C_conj_ok 4 w4 quarter 4 w4 quarter
+                          C_root_ok C_root_ok 1%Z (-2)%Z k1 k2 H1 H2)
+    (fun i j _ _ => ex_stack_real 1 i j).
+
+Lemma ex_ramp_env_hermitian p : forall k1 k2, k1 < 4 -> k2 < 4 ->
+  cconj (cmul (ex_ramp p k1 k2) (ex_env k1 k2)) = cmul (ex_ramp p (negidx 4 k1) (negidx 4 k2)) (ex_env (negidx 4 k1) (negidx 4 k2)).
+Proof.
+  intros k1 k2 H1 H2. unfold ex_env, ex_ramp.
+  rewrite (conj_mul _ _ _ _ C_conj_ok).
+  rewrite (C04_integer_ramp_hermitian C c0 c1 cadd cmul csub copp C_ring cconj C_conj_ok 4 w4 quarter 4 w4 quarter
+             C_root_ok C_root_ok (ex_s1 p) (ex_s2 p) k1 k2 H1 H2).
+  reflexivity.
+Qed.
+
+Example C04_nonvacuous_lossless :=
+  C04_hermitian_kernel_real_part_lossless C c0 c1 cadd cmul csub copp C_ring cconj C_conj_ok chalf cinv
+    2 ws2r chalf 2 ws2r chalf C_root_ok2 C_root_ok2 4 w4 quarter 4 w4 quarter C_root_ok C_root_ok
+    2 ltac:(lia) eq_refl eq_refl ws2r_link ws2r_link
+    ex_ramp wone ex_env ex_garbage ex_stack mfull mB 2 1 ex_garbage 1 2
+    chalf_ok (ex_ramp_env_hermitian _) (ex_stack_real _)
+    ltac:(lia) ltac:(cbv; lia) ltac:(lia) ltac:(lia).
+
+Example C04_nonvacuous_grid_hermitian :=
+  C04_grid_multiplier_hermitian C cconj Kz kneg2 4 4 exqof
+    (sb_factor cmul csub cconj kadd2 kneg2 w4 exA exchi exmi exninv (1, 0)%Z)
+    (fun q => C04_sideband_multiplier_hermitian C c0 c1 cadd cmul csub copp C_ring cconj C_conj_ok Kz kadd2 kneg2 Z
+                w4 exA exchi exmi exninv (1, 0)%Z q kneg2_add kneg2_invol exA_even exchi_even exmi_conj
+                (fun _ => eq_refl) (fun _ => eq_refl))
+    exqof_neg.
+
+Example C04_nonvacuous_ramp_index :=
+  C04_ramp_fftfreq_index C c0 c1 cadd cmul csub copp C_ring cconj C_conj_ok 4 w4 quarter C_root_ok 3 1%Z.
+Example C04_nonvacuous_signed_idx : map (signed_idx 4) [0; 1; 2; 3] = [0; 1; -2; -1]%Z /\ map (signed_idx 5) [0; 1; 2; 3; 4] = [0; 1; 2; -2; -1]%Z.
+Proof. split; reflexivity. Qed.
+
+Example C04_nonvacuous_state :=
+  C04_state_history_independent nat nat nat Nat.add 5 [1; 2; 3] 7.
+
+(* an overlapping family: the whole mask together with mB (stack indices 0..4 and 1, 2, 4 again) *)
+Example C04_nonvacuous_any_family :=
+  C04_submask_any_family C c0 c1 cadd cmul csub copp C_ring cconj chalf cinv 2 ws2r 2 ws2r
+    4 w4 quarter 4 w4 quarter (kern_mult cmul ex_g) wone ex_env ex_garbage ex_stack
+    mfull [mfull; mB] (fun _ => 2) 3 ex_garbage 1 2
+    ex_over_ok ex_over_lt ltac:(lia) (weight_inv mfull (or_introl eq_refl)).
